@@ -11,6 +11,9 @@ META = {
     "level": "Decides: (R1) the five record tags written (obj, sym, dir, dev, fif) equal the tags the reader accepts; records are joined with a single space and split on exactly a single space (so runs of blanks inside paths survive); per tag the reader's slices address the fields the writer emits (obj: path = fields 1..-3, md5 = -2 in hex via long2str/int(...,16), mtime = -1; sym: path before the '->' token, target after it, mtime last); mtimes are written as str(int(mtime)) (truncated, integral) and read with int(); (R2) a record may contain at most one free-form field delimited by fixed counts from both ends; (R3) the file is replaced through AtomicWriteFile: close() only on the exception-free path after the last write, the temporary dropped otherwise. Does NOT decide entry equality for concrete sets.",
     "note": "the CONTENTS format is shared with portage; snakeoil AtomicWriteFile renames on close() and discards when finalised unclosed",
 }
+META["technique"] += "; " + 'must-pass rule: a reusable file object is truncated before it is handed out for writing'
+META["level"] += " Added after the second round of independent changes: " + '(R4) _get_fd(write=True) never returns a data_source file object that was only rewound.'
+META["technique"] += "; " + 'generic pack G on the anchored files (optional-flag shift, closures outliving a loop iteration, single-pass iterables consumed twice, %-templates built from data, in-place writes to class-level / memoised objects, generators mutating what they yielded, memo keys that are projections)'
 MOD = "pkgcore.vdb.contents"
 TAGS = {"obj", "sym", "dir", "dev", "fif"}
 
